@@ -291,3 +291,173 @@ def run(chk, prog, rule='R4'):
     n += to_ulong(chk, prog, rule)
     n += to_string(chk, prog, rule)
     return n
+
+
+# ====================================================================== bit-level results of the mutators
+
+def mutators(chk, prog, rule='R5'):
+    """C12-R5: the mutating operators produce, for every operand and for EVERY bit position, the bit the reference
+    bit vector has there.  Engine C with the bit-level content model (cv/bits.py): element-wise loops are summarised
+    (after proving that no iteration reads what an earlier one wrote), the bit at a symbolic position of the result
+    is resolved through the write log and compared with the specification of the operation."""
+    from .. import bits
+    from ..bits import region_of, resolve, same, show, simplify
+    cfg = {'inline': ('celma::container::',), 'inline_depth': 3, 'track_content': True, 'models': dict(bits.MODELS),
+           'loop_summary': bits.loop_summary}
+    eng = Engine(prog, cfg)
+    eng.param_max = 1 << 62
+    T, O = 'this.mData', 'other.mData'
+    tr, orr = region_of(T), region_of(O)
+
+    def I(r, off):
+        return ('i', r, off)
+
+    def setup(e, st, func):
+        st.fields[('this', 'mData')] = Obj(T, 'std::vector<bool>')
+        n = bits.vec_size(e, st, T)
+        st.assume(le(n, (1 << 62)))
+        for p in func.params:
+            t = btype(p['t'].rstrip('&').strip())
+            if t == 'celma::container::DynamicBitset':
+                st.vars[p['name']] = Obj('other', t)
+                st.fields[('other', 'mData')] = Obj(O, 'std::vector<bool>')
+                m = bits.vec_size(e, st, O)
+                st.assume(le(m, (1 << 62)))
+            elif t.startswith('std::vector<bool'):
+                st.vars[p['name']] = Obj(O, 'std::vector<bool>')
+                m = bits.vec_size(e, st, O)
+                st.assume(le(m, (1 << 62)))
+
+    n, m = Lin.sym('%s.size()' % T), Lin.sym('%s.size()' % O)
+
+    def spec(f):
+        """(result object selector, [(assumptions, expected size, [(range assumptions for position p, expected bit)])])"""
+        ks = tuple(btype(p['t'].rstrip('&').strip()) for p in f.params)
+        v = [Lin.sym(p['name']) for p in f.params]
+        p = Lin.sym('p?')
+        short = f.short
+        if short == 'flip' and not ks:
+            return 'this', [([], n, lambda p: [([], ('not', I(tr, p)))])]
+        if short == 'reset' and not ks:
+            return 'this', [([], lin(0), lambda p: [])]
+        if short == 'resize':
+            return 'this', [([], v[0], lambda p: [([lt(p, n)], I(tr, p)), ([ge(p, n)], ('v', v[1]))])]
+        if short == 'operator=' and ks and ks[0].startswith('std::vector<bool') and not f.params[0]['t'].endswith('&&'):
+            return 'this', [([], m, lambda p: [([], I(orr, p))])]
+        if short in ('operator&=', 'operator|=', 'operator^='):
+            op = {'&': 'and', '|': 'or', '^': 'xor'}[short[8]]
+            if op == 'and':
+                return 'this', [([], n, lambda p: [([lt(p, m)], ('and', I(tr, p), I(orr, p))), ([ge(p, m)], ('c', 0))])]
+            return 'this', [([ge(n, m)], n, lambda p: [([lt(p, m)], (op, I(tr, p), I(orr, p))), ([ge(p, m)], I(tr, p))]),
+                            ([lt(n, m)], m, lambda p: [([lt(p, n)], (op, I(tr, p), I(orr, p))),
+                                                       ([ge(p, n)], I(orr, p))])]
+        if short == 'operator~':
+            return 'ret', [([], n, lambda p: [([], ('not', I(tr, p)))])]
+        if short in ('operator<<', 'operator<<='):
+            d = v[0]
+            who = 'ret' if short == 'operator<<' else 'this'
+            return who, [([ge(d, 1), ge(n, 1)], n + d, lambda p: [([lt(p, d)], ('c', 0)), ([ge(p, d)], I(tr, p - d))]),
+                         ([le(d, 0)], n, lambda p: [([], I(tr, p))]),
+                         ([le(n, 0)], n, lambda p: [])]
+        if short in ('operator>>', 'operator>>='):
+            d = v[0]
+            who = 'ret' if short == 'operator>>' else 'this'
+            return who, [([ge(d, 1), ge(n, 1)], n, lambda p: [([lt(p + d, n)], I(tr, p + d)), ([ge(p + d, n)], ('c', 0))]),
+                         ([le(d, 0)], n, lambda p: [([], I(tr, p))]),
+                         ([le(n, 0)], n, lambda p: [])]
+        if short in ('set', 'reset', 'flip') and ks and ks[0] == 'unsigned long':
+            pos = v[0]
+            if short == 'set':
+                newbit = ('v', v[1])
+            elif short == 'reset':
+                newbit = ('c', 0)
+            else:
+                newbit = None
+            return 'this', [([], None, lambda p: [([lt(p, pos), lt(p, n)], I(tr, p)), ([gt(p, pos), lt(p, n)], I(tr, p)),
+                                                  ([lt(p, pos), ge(p, n)], ('c', 0)), ([gt(p, pos), ge(p, n)], ('c', 0))] +
+                             ([(eq(p, pos), newbit)] if newbit is not None else
+                              [(eq(p, pos) + [lt(pos, n)], ('not', I(tr, p))), (eq(p, pos) + [ge(pos, n)], ('c', 1))]))]
+        return None
+
+    members = [f for f in prog.functions if f.classq == CLS and not f.d.get('ctor') and not f.d.get('dtor')]
+    n_spec = 0
+    undecided = []
+    for f in sorted(members, key=lambda x: (x.line, x.key)):
+        sp = spec(f)
+        if sp is None:
+            continue
+        who, variants = sp
+        n_spec += 1
+        sig = '%s(%s)%s' % (f.short, ', '.join(p['t'].replace('celma::container::', '').replace(
+            'std::vector<bool, std::allocator<bool>>', 'vector<bool>') for p in f.params), ' const' if f.d.get('const') else '')
+        for vi, (assume, size_want, bitspec) in enumerate(variants):
+            tag = '%s, case %d' % (sig, vi + 1)
+            dead = []
+
+            def setup2(e, st, func, assume=assume, dead=dead):
+                setup(e, st, func)
+                st.assume(*assume)
+                if not st.ok():
+                    dead.append(1)
+            mark = len(eng.obligations)
+            eng.dependent_loops = set()
+            finals = eng.analyse(f, setup2)
+            del eng.obligations[mark:]
+            if dead:
+                continue
+            for s in finals:
+                if s.status not in ('normal', 'return'):
+                    continue
+                if who == 'this':
+                    vec = T
+                else:
+                    r = s.ret
+                    if not isinstance(r, Obj):
+                        chk.check(False, rule, f.name, 'the result object is tracked [%s]' % tag, f.loc(), repr(r))
+                        continue
+                    mo = s.fields.get((r.name, 'mData'))
+                    vec = mo.name if isinstance(mo, Obj) else None
+                    if vec is None or (vec, 'size') not in s.fields:
+                        undecided.append(tag)
+                        continue
+                size = s.fields.get((vec, 'size'))
+                if size_want is not None:
+                    ok = isinstance(size, Lin) and entails(s.cons, ge(size, size_want)) and \
+                        entails(s.cons, le(size, size_want))
+                    chk.check(ok, rule, f.name, 'the result has the size of the reference bit vector [%s]' % tag, f.loc(),
+                              '' if ok else 'size %r, expected %r; path [%s]' % (size, size_want, '; '.join(s.trail[-5:])))
+                if not isinstance(size, Lin):
+                    continue
+                p = eng.fresh('p', s, 'unsigned long')
+                s2 = s.copy()
+                s2.assume(ge(p, 0), lt(p, size))
+                bad = None
+                und = False
+                ncase = 0
+                if s2.ok():
+                    for extra, want in bitspec(p):
+                        s3 = s2.copy()
+                        s3.assume(*extra)
+                        if not s3.ok():
+                            continue
+                        for act, sa in resolve(eng, s3, region_of(vec), p):
+                            ncase += 1
+                            if simplify(act)[0] == 'u' or 'u' in repr(simplify(act)) and "('u',)" in repr(simplify(act)):
+                                und = True
+                                continue
+                            if not same(sa, act, want):
+                                bad = bad or 'bit %r of the result is %s, the reference has %s; path [%s]' % (
+                                    p, show(act), show(want), '; '.join(sa.trail[-5:]))
+                if und and bad is None:
+                    if getattr(eng, 'dependent_loops', None):
+                        bad = 'a loop reads positions that an earlier iteration of the same loop has already ' \
+                              'overwritten (the result is not the shifted/combined ORIGINAL content)'
+                    else:
+                        undecided.append(tag)
+                chk.check(bad is None, rule, f.name, 'every bit of the result is the bit of the reference bit vector '
+                          '[%s]' % tag, f.loc(), bad or '')
+    chk.require(n_spec >= 12, 'only %d mutating members of DynamicBitset matched a specification' % n_spec)
+    if undecided:
+        chk.notes.append('bit-level result undecided (loop not summarised): %s' % sorted(set(undecided))[:8])
+    chk.samples.append({'R5_members_specified': n_spec, 'R5_undecided': sorted(set(undecided))})
+    return n_spec
